@@ -115,9 +115,15 @@ class Rule_AM07(BaseRule):
                 # Crawl inside the FROM expression looking for something to
                 # resolve to.
                 select_info_target = next(
-                    root_query.crawl_sources(alias_info.from_expression_element)
+                    root_query.crawl_sources(alias_info.from_expression_element),
+                    None,
                 )
 
+                if select_info_target is None:
+                    # Nothing to resolve to (e.g. an aliased pair of empty
+                    # brackets), so we can't resolve the wildcard.
+                    resolved = False
+                    continue
                 if isinstance(select_info_target, str):
                     cte_name = select_info_target
                 else:
